@@ -32,6 +32,8 @@ CLAIMED = {
          "static analysis: nom combinator table extraction from MIR, format-template decoding, panic-site provers with inductive loop invariants, call-graph SCCs"),
  'C16': ("decides for all inputs: key-path cone panic inventory (shared scanners proven as in C09), whole-input check, alternative order index/quoted/plain with no shadowing, printer shapes (Display between plain quotes, { , }), complete combinators, escape widths. Completeness and escape decoding results are NOT decided",
          "static analysis: panic-site provers with inductive invariants, combinator and format-template table extraction"),
+ 'C02': ("decides for all byte strings: value-start dispatch table over all 256 bytes, whitespace set, the eight escape decodings, agreement of scanner and decoder escape widths, trailing-input check, number classification (u64 / i64 / correctly rounded f64), last-duplicate-wins insertion, panic inventory of the parser cone, surrogate ranges and formula, and that each of the 24 accepting paths of the number lexer matches the RFC 8259 number grammar; recursion on nesting is a known finding. Full language equality and the meaning of accepted strings are NOT decided",
+         "static analysis: byte-class tables by interval sets, path-language matching of the lexer against the RFC regular expression, panic-site provers, call-graph SCCs"),
 }
 NOT_APPLICABLE = {
 }
